@@ -9,6 +9,13 @@ from pyvc import core
 from pyvc.core import Sym, lift, INT, BOOL, Unsupported
 from pyvc.heap import SymSeq, SInt, STuple
 from pyvc.unit import Unit, NoopLogger
+from pyvc.rt import Tracked
+from contracts.stubs import UtilsStub
+
+
+def min_(a, b):
+    a, b = lift(a), lift(b)
+    return Sym(z3.If(a <= b, a, b))
 
 P = "C06"
 EDGE = z3.Function("is_edge", INT, INT, BOOL)
@@ -114,5 +121,373 @@ def u_process_edge():
                 abstractions=["nested function extracted on its own; its free variables G and no_duplicates are bound in the sidecar"])
 
 
+REACH = z3.Function("reaches", INT, INT, BOOL)          # REACH(a, b): b is reachable from a (what stDAG / stDiGraph reachability queries answer; C17)
+HASEDGE = z3.Function("G_has_edge", INT, INT, BOOL)
+
+
+class _NodeSet:
+    """result of a reachability query: only membership is used"""
+    def __init__(self, pred): self.pred = pred
+    def __contains__(self, x): return bool(Sym(self.pred(lift(x))))
+
+
+class _ProtSet:
+    """the set of protected edges: membership predicate over (tail, head)"""
+    def __init__(self, pred): self.pred = pred
+    def add(self, e):
+        u, v, old = lift(e[0]), lift(e[1]), self.pred
+        self.pred = lambda a, b: z3.Or(old(a, b), z3.And(a == u, b == v))
+    def __contains__(self, e): return bool(Sym(self.pred(lift(e[0]), lift(e[1]))))
+    @classmethod
+    def fresh(cls, name="protected"):
+        f = z3.Function(core.ctx().name(name), INT, INT, BOOL)
+        return cls(lambda a, b: f(a, b))
+
+
+def u_fix_zero_edges(relpath, qualname, attr, dag):
+    """_apply_safety_optimizations_fix_zero_edges (DAG and walk model): the pruning step of C06.
+    ensures (SOUND, property clause): an edge variable of layer i is fixed to 0 ONLY IF the edge is not in the safe list of layer i, its tail is
+        not reachable from the last node of the list, its head does not reach the first node, and it bridges no gap of the list (tail reachable
+        from the head of one listed edge and head reaching the tail of the next; DAG model: only where the two listed edges are not adjacent).
+        With the graph lemma below every route that contains the list in order uses only edges outside the fixed set.
+    ensures (auxiliary): every edge fixed is an edge of G and the layer index is below min(len(lists), k)."""
+    st = {}
+    PT, PH = z3.Function("list_edge_tail", INT, INT, INT), z3.Function("list_edge_head", INT, INT, INT)     # (layer, position)
+    PLEN = z3.Function("list_length", INT, INT)
+    ET, EH = z3.Function("G_edge_tail", INT, INT), z3.Function("G_edge_head", INT, INT)
+
+    def gap(i, idx):
+        return z3.BoolVal(True) if not dag else PH(i, idx) != PT(i, idx + 1)
+
+    def mayuse(i, u, v):
+        j, g = z3.Ints("mj mg")
+        n = PLEN(i)
+        return z3.Or(z3.Exists([j], z3.And(j >= 0, j < n, PT(i, j) == u, PH(i, j) == v)),
+                     REACH(PH(i, n - 1), u), REACH(v, PT(i, 0)),
+                     z3.Exists([g], z3.And(g >= 0, g < n - 1, gap(i, g), REACH(PH(i, g), u), REACH(v, PT(i, g + 1)))))
+
+    class Var:
+        def __init__(self, u, v, i): self.k = (lift(u), lift(v), lift(i))
+        def __eq__(self, o): return Row(self.k, o)
+        __hash__ = None
+
+    class Row:
+        def __init__(self, k, rhs): self.k, self.rhs = k, rhs
+
+    class EdgeVars:
+        def __getitem__(self, key): return Var(*key)
+
+    class SolverStub:
+        def add_constraint(self, row, name=None):
+            c = core.ctx()
+            if not isinstance(row, Row):
+                raise Unsupported("add_constraint with an expression other than edge_vars[...] == constant")
+            u, v, i = row.k
+            c.prove("row:the-right-hand-side-is-0", lift(row.rhs) == 0, prop=P, kind="xpost")
+            c.prove("row:fixed-to-0-only-if-no-route-containing-the-safe-list-of-the-layer-can-use-the-edge", z3.Not(mayuse(i, u, v)), prop=P, kind="xpost")
+            q = z3.Int("eq")
+            c.prove("row(auxiliary):the-fixed-variable-belongs-to-an-edge-of-G-and-a-layer-that-has-a-list",
+                    z3.And(z3.Exists([q], z3.And(q >= 0, q < st["nE"], ET(q) == u, EH(q) == v)), i >= 0, i < st["nL"], i < st["k"]), prop=None, kind="xpost")
+
+    class Sink(dict):
+        def __setitem__(self, k, v): pass
+
+    def edges_seq():
+        return SymSeq(st["nE"], lambda q: (Sym(ET(lift(q))), Sym(EH(lift(q)))), ESH, "G.edges")
+
+    class GStub:
+        @property
+        def edges(self): return edges_seq()
+        def has_edge(self, u, v): return Sym(HASEDGE(lift(u), lift(v)))
+        def nodes_reachable(self, x): x = lift(x); return _NodeSet(lambda u: REACH(x, u))
+        def nodes_reaching(self, x): x = lift(x); return _NodeSet(lambda v: REACH(v, x))
+        class _RF:
+            def __getitem__(self, x): x = lift(x); return _NodeSet(lambda u: REACH(x, u))
+        reachable_nodes_from = _RF()
+
+    def list_at(i):
+        i = lift(i)
+        return SymSeq(PLEN(i), lambda j: (Sym(PT(i, lift(j))), Sym(PH(i, lift(j)))), ESH, "safe_list")
+
+    def set_(x):
+        # set(<generator over the list, filtered by has_edge>): membership = some listed edge equal to it that is an edge of G
+        i = st["i"]()
+        j = z3.Int("sj")
+        return _ProtSet(lambda a, b: z3.Exists([j], z3.And(j >= 0, j < PLEN(i), PT(i, j) == a, PH(i, j) == b, HASEDGE(a, b))))
+
+    # -- invariants.  E[q] = q-th edge of G;  i = current layer
+    def grows(ns, key):
+        a, b = z3.Ints("ga gb")
+        old = st[key]
+        return z3.ForAll([a, b], z3.Implies(old(a, b), ns["protected_edges"].pred(a, b)))
+
+    def enter(key):
+        def f(ns, it=None):
+            st[key] = ns["protected_edges"].pred
+        return f
+
+    def inv_ends(ns, seq, done):
+        i, q = lift(ns["i"]), z3.Int("q1")
+        pr = ns["protected_edges"].pred
+        n = PLEN(i)
+        return {"edges-after-the-last-node-or-before-the-first-node-seen-so-far-are-protected":
+                    z3.ForAll([q], z3.Implies(z3.And(q >= 0, q < lift(done), z3.Or(REACH(PH(i, n - 1), ET(q)), REACH(EH(q), PT(i, 0)))), pr(ET(q), EH(q)))),
+                "protection-only-grows": grows(ns, "p1"),
+                "first-and-last-node": z3.And(lift(ns["first_node"]) == PT(i, 0), lift(ns["last_node"]) == PH(i, n - 1))}
+
+    def inv_gaps(ns, seq, done):
+        i, g, w = lift(ns["i"]), z3.Int("g2"), z3.Int("w2")
+        gp = ns["gap_pairs"]
+        ga = lambda x: lift(gp._at(x)[0])
+        gb = lambda x: lift(gp._at(x)[1])
+        return {"every-gap-seen-so-far-is-recorded":
+                    z3.ForAll([g], z3.Implies(z3.And(g >= 0, g < lift(done), gap(i, g)),
+                                              z3.Exists([w], z3.And(w >= 0, w < gp.n, ga(w) == PH(i, g), gb(w) == PT(i, g + 1)))))}
+
+    def bridged(ns, upto_gap, upto_edge_at_current=None):
+        gp = ns["gap_pairs"] if "gap_pairs" in ns else st["gp"]
+        pr = ns["protected_edges"].pred
+        ga = lambda x: lift(gp._at(x)[0])
+        gb = lambda x: lift(gp._at(x)[1])
+        w, q = z3.Ints("w3 q3")
+        full = z3.ForAll([w, q], z3.Implies(z3.And(w >= 0, w < upto_gap, q >= 0, q < st["nE"], REACH(ga(w), ET(q)), REACH(EH(q), gb(w))), pr(ET(q), EH(q))))
+        if upto_edge_at_current is None:
+            return full
+        cur_a, cur_b, d = upto_edge_at_current
+        part = z3.ForAll([q], z3.Implies(z3.And(q >= 0, q < d, REACH(cur_a, ET(q)), REACH(EH(q), cur_b)), pr(ET(q), EH(q))))
+        return z3.And(full, part)
+
+    def inv_bridge_outer(ns, seq, done):
+        st["od"] = lift(done)
+        return {"edges-bridging-a-gap-handled-so-far-are-protected": bridged(ns, lift(done)), "protection-only-grows": grows(ns, "p3")}
+
+    def enter_inner(ns, it=None):
+        st["p4"] = ns["protected_edges"].pred
+        st["g_done"] = st["od"]
+
+    def inv_bridge_inner(ns, seq, done):
+        gd = st["g_done"]
+        return {"edges-bridging-the-gaps-handled-so-far-and-the-current-gap-up-to-here-are-protected":
+                    bridged(ns, gd, (lift(ns["current_last"]), lift(ns["current_start"]), lift(done))),
+                "protection-only-grows": grows(ns, "p4")}
+
+    def h(c, f):
+        nE, nL, k = c.fresh_const("n_edges", INT), c.fresh_const("n_lists", INT), c.fresh_const("k", INT)
+        c.assume(z3.And(nE >= 0, nL >= 0))
+        q, a = z3.Ints("hq ha")
+        c.assume(z3.ForAll([q], z3.Implies(z3.And(q >= 0, q < nE), HASEDGE(ET(q), EH(q)))))        # G.has_edge is true of the edges G.edges lists
+        c.assume(z3.ForAll([a], PLEN(a) >= 0))
+        st.update(nE=nE, nL=nL, k=k)
+        class Me(Tracked):
+            pass
+        me = Me()
+        setattr(me, attr, SymSeq(nL, lambda i: list_at(i), None, attr))
+        me.k = Sym(k)
+        me.G = GStub()
+        me.solver = SolverStub()
+        me.edge_vars = EdgeVars()
+        me.edges_set_to_zero = Sink()
+        me.solve_statistics = {}
+        st["me"] = me
+        f(me)
+
+    prot = lambda old: _ProtSet.fresh()
+    gaps = lambda old: SymSeq.fresh("gap_pairs", ESH)
+    lst = lambda old: old
+    tmp = ("u", "v", "idx", "end_prev", "start_next", "current_last", "current_start")
+
+    def outer_entry(ns, it=None):
+        pass
+
+    def enter_bridge(ns, it=None):
+        st["p3"] = ns["protected_edges"].pred
+
+    loops = {0: dict(inv=lambda ns, seq, done: (st.__setitem__("i_cur", lift(done)) or {}), prop=P,
+                     havoc={"protected_edges": prot, "gap_pairs": gaps, "path": lst, "walk": lst}, keep=tmp + ("first_node", "last_node")),
+             1: dict(inv=inv_ends, prop=P, on_entry=enter("p1"), havoc={"protected_edges": prot}, keep=tmp),
+             2: dict(inv=inv_gaps, prop=P, havoc={"gap_pairs": gaps}, keep=tmp),
+             3: dict(inv=inv_bridge_outer, prop=P, on_entry=enter_bridge, havoc={"protected_edges": prot}, keep=tmp),
+             4: dict(inv=inv_bridge_inner, prop=P, on_entry=enter_inner, havoc={"protected_edges": prot}, keep=tmp),
+             5: dict(inv=lambda ns, seq, done: {}, prop=P, keep=tmp)}
+    st["i"] = lambda: st["i_cur"]
+    empty = lambda: SymSeq(z3.IntVal(0), lambda j: (Sym(z3.IntVal(0)), Sym(z3.IntVal(0))), ESH, "gap_pairs")
+    from vf.replay import replay_fix_zero
+    return Unit(relpath, qualname, h, globs=dict(utils=UtilsStub, set=set_, hasattr=hasattr, min=min_), loops=loops, props=[P], literals=dict(list=empty), replay=replay_fix_zero(dag),
+                assumptions=["reachability queries of G answer one fixed relation `reaches` (C17 checks them against the graph)",
+                             "A4' (graph lemma, not proved here): a source-to-sink route that contains the edges of the safe list in order uses, besides them, only edges "
+                             "whose head reaches the first listed tail, whose tail is reachable from the last listed head, or that lie between two consecutive listed edges "
+                             "(DAG: only when these are not adjacent, otherwise there would be a cycle)",
+                             "G.has_edge is true of every edge G.edges lists"],
+                abstractions=["node names are integers compared by ==", "safe lists, G.edges: abstract sequences of arbitrary length", "the set of protected edges is its membership predicate"])
+
+
+def u_apply_safety_walk():
+    """AbstractWalkModelDiGraph._apply_safety_optimizations: what the walk models do with the safe sequences.
+    ensures (property clauses, 'prune soundly'):
+      * a lower bound / a row  x[(u,v,i)] >= m  is installed only for an edge that occurs in the safe list of layer i, with m <= number of its
+        occurrences in that list (auxiliary: an SCC edge, m exactly that number);
+      * a variable is fixed to 1 / a row  x[(u,v,i)] == 1  only for a non-SCC edge that occurs in the safe list of layer i;
+      * with safety-as-subset-constraints the safe lists (and nothing else) are appended to the subset constraints, no variable is touched;
+      * ValueError only if a non-SCC edge occurs more than once in a list (impossible for a list a walk can contain).
+    The safe lists themselves (maximal_safe_sequences_via_dominators, get_longest_incompatible_sequences) are callee results: arbitrary lists here;
+    their safety / incompatibility is decided by the bounded oracle.  Counter is trusted (keys = the distinct elements, value = number of occurrences)."""
+    st = {}
+    PT, PH = z3.Function("list_edge_tail", INT, INT, INT), z3.Function("list_edge_head", INT, INT, INT)
+    PLEN = z3.Function("list_length", INT, INT)
+    KT, KH, NK = z3.Function("counter_key_tail", INT, INT, INT), z3.Function("counter_key_head", INT, INT, INT), z3.Function("counter_size", INT, INT)
+    OCC = z3.Function("occurrences_in_list", INT, INT, INT, INT)        # (layer, tail, head)
+    SCC = z3.Function("is_scc_edge", INT, INT, BOOL)
+
+    def listed(i, u, v):
+        j = z3.Int("lj")
+        return z3.Exists([j], z3.And(j >= 0, j < PLEN(i), PT(i, j) == u, PH(i, j) == v))
+
+    class Var:
+        def __init__(self, u, v, i): self.k = (lift(u), lift(v), lift(i))
+        def __eq__(self, o): return ("eq", self.k, o)
+        def __ge__(self, o): return ("ge", self.k, o)
+        __hash__ = None
+
+    class EdgeVars:
+        def __getitem__(self, key): return Var(*key)
+
+    def layer_ok(i):
+        return z3.And(i >= 0, i < st["nW"], i < st["k"])
+
+    class SolverStub:
+        def _lower(self, k, m, how):
+            c = core.ctx()
+            u, v, i = k
+            m = lift(m)
+            c.prove("%s:lower-bound-only-for-an-edge-of-the-layer's-safe-list,-at-most-its-number-of-occurrences" % how,
+                    z3.And(listed(i, u, v), m <= OCC(i, u, v)), prop=P, kind="xpost")
+            c.prove("%s(auxiliary):SCC-edge,-the-bound-is-exactly-the-number-of-occurrences,-layer-in-range" % how, z3.And(SCC(u, v), m == OCC(i, u, v), layer_ok(i)), prop=None, kind="xpost")
+
+        def _one(self, k, val, how):
+            c = core.ctx()
+            u, v, i = k
+            c.prove("%s:fixed-to-1-only-for-a-non-SCC-edge-of-the-layer's-safe-list" % how, z3.And(listed(i, u, v), z3.Not(SCC(u, v)), lift(val) == 1), prop=P, kind="xpost")
+            c.prove("%s(auxiliary):layer-in-range" % how, layer_ok(i), prop=None, kind="xpost")
+
+        def queue_set_var_lower_bound(self, var, m): self._lower(var.k, m, "queue_set_var_lower_bound")
+        def queue_fix_variable(self, var, val): self._one(var.k, val, "queue_fix_variable")
+
+        def add_constraint(self, row, name=None):
+            if not (isinstance(row, tuple) and row[0] in ("eq", "ge")):
+                raise Unsupported("add_constraint with an expression other than edge_vars[...] (==|>=) constant")
+            (self._one if row[0] == "eq" else self._lower)(row[1], row[2], "add_constraint")
+
+    class Sink(dict):
+        def __setitem__(self, k, v): pass
+
+    def list_at(i):
+        i = lift(i)
+        return SymSeq(PLEN(i), lambda j: (Sym(PT(i, lift(j))), Sym(PH(i, lift(j)))), ESH, "safe_list")
+
+    class CounterStub:
+        def __init__(self, walk):
+            self.i = st["layer"]()
+        def items(self):
+            i = self.i
+            c = core.ctx()
+            j = z3.Int("cj")
+            # Counter semantics (trusted): every key is an element of the list, its value is the number of its occurrences (>= 1)
+            c.assume(z3.ForAll([j], z3.Implies(z3.And(j >= 0, j < NK(i)), z3.And(listed(i, KT(i, j), KH(i, j)), OCC(i, KT(i, j), KH(i, j)) >= 1))))
+            c.assume(NK(i) >= 0)
+            return SymSeq(NK(i), lambda q: ((Sym(KT(i, lift(q))), Sym(KH(i, lift(q)))), Sym(OCC(i, KT(i, lift(q)), KH(i, lift(q))))), None, "counter.items")
+
+    class OpaqueList:
+        """a list whose elements this function never looks at: length + the record of what was appended (by identity)"""
+        def __init__(self, n, name, appended=()):
+            self.n, self.name, self.appended = lift(n), name, list(appended)
+        def __iadd__(self, other):
+            self.n = self.n + lift(other.n)
+            self.appended.append(getattr(other, "name", "?"))
+            return self
+        def __add__(self, other):            # a new list with the same beginning: `x = x + y` is as good as `x += y`
+            return OpaqueList(self.n + lift(other.n), self.name, self.appended + [getattr(other, "name", "?")])
+
+    class Dom:
+        @staticmethod
+        def maximal_safe_sequences_via_dominators(G=None, X=None):
+            st["dom_called"] = True
+            return st["SL"]
+
+    class GStub:
+        def is_scc_edge(self, u, v): return Sym(SCC(lift(u), lift(v)))
+
+    def h(c, f):
+        nW, k, nS, nC = c.fresh_const("n_walks_to_fix", INT), c.fresh_const("k", INT), c.fresh_const("n_safe_lists", INT), c.fresh_const("n_subset_constraints", INT)
+        c.assume(z3.And(nW >= 0, nS >= 0, nC >= 0))
+        a = z3.Int("ha")
+        c.assume(z3.ForAll([a], PLEN(a) >= 0))
+        st.update(nW=nW, k=k, dom_called=False, mk_empty=lambda: OpaqueList(0, "safe_lists"))
+        SLT, SLH, SLL = z3.Function("safe_list_tail", INT, INT, INT), z3.Function("safe_list_head", INT, INT, INT), z3.Function("safe_list_len", INT, INT)
+        st["SL"] = OpaqueList(nS, "maximal_safe_sequences_via_dominators()")
+        SC = OpaqueList(nC, "subset_constraints")
+        calls = []
+
+        class Me(Tracked):
+            def _get_walks_to_fix_from_safe_lists(self):
+                calls.append("walks_to_fix")
+                return SymSeq(nW, lambda i: list_at(i), None, "walks_to_fix")
+            def _apply_safety_optimizations_fix_zero_edges(self):
+                calls.append("fix_zero")
+        me = Me()
+        flags = {}
+        for nm in ("optimize_with_safe_sequences", "optimize_with_safety_as_subset_constraints", "optimize_with_max_safe_antichain_as_subset_constraints",
+                   "optimize_with_safe_sequences_fix_zero_edges", "optimize_with_safe_sequences_allow_geq_constraints", "optimize_with_safe_sequences_fix_via_bounds"):
+            flags[nm] = c.fresh_const(nm, BOOL)
+            setattr(me, nm, Sym(flags[nm]))
+        me.k, me.G, me.solver, me.edge_vars = Sym(k), GStub(), SolverStub(), EdgeVars()
+        me.edges_set_to_one, me.solve_statistics, me.trusted_edges_for_safety = Sink(), {}, None
+        me.subset_constraints = SC
+        sc0_n = SC.n
+        st["me"] = me
+        try:
+            f(me)
+        except ValueError:
+            i, q = z3.Ints("vi vq")
+            c.prove("xpost:ValueError-only-if-a-non-SCC-edge-occurs-more-than-once-in-a-safe-list",
+                    z3.Exists([i, q], z3.And(i >= 0, i < nW, q >= 0, q < NK(i), z3.Not(SCC(KT(i, q), KH(i, q))), OCC(i, KT(i, q), KH(i, q)) != 1)), prop=P, kind="xpost")
+            return
+        any_opt = z3.Or(flags["optimize_with_safe_sequences"], flags["optimize_with_safety_as_subset_constraints"], flags["optimize_with_max_safe_antichain_as_subset_constraints"])
+        c.prove("post:safe-sequences-are-computed-iff-some-safety-option-is-on", z3.BoolVal(st["dom_called"]) == any_opt, prop=None)
+        sc = me.subset_constraints
+        c.prove("post:the-subset-constraints-still-begin-with-the-caller's-constraints", z3.BoolVal(isinstance(sc, OpaqueList) and sc.name == "subset_constraints"), prop=P)
+        safe_only = all(x in ("safe_lists", "walks_to_fix") for x in sc.appended)
+        c.prove("post:only-collections-of-safe-sequences-are-ever-appended-to-the-subset-constraints", z3.BoolVal(safe_only), prop=P)
+        if "walks_to_fix" not in calls:
+            c.prove("post(auxiliary):without-walks-to-fix-only-safety-as-subset-constraints-returns-early", flags["optimize_with_safety_as_subset_constraints"], prop=None)
+            c.prove("post(auxiliary):safety-as-subset-constraints-appends-exactly-the-safe-lists", z3.BoolVal(sc.appended == ["safe_lists"]), prop=None)
+        else:
+            c.prove("post(auxiliary):zero-fixing-runs-iff-its-option-is-on", z3.BoolVal("fix_zero" in calls) == flags["optimize_with_safe_sequences_fix_zero_edges"], prop=None)
+            want = z3.If(flags["optimize_with_max_safe_antichain_as_subset_constraints"], 1, 0)
+            c.prove("post(auxiliary):subset-constraints-grow-exactly-by-the-antichain-of-walks-to-fix-when-that-option-is-on",
+                    z3.And(z3.BoolVal(all(x == "walks_to_fix" for x in sc.appended)), z3.IntVal(len(sc.appended)) == want), prop=None)
+
+    def inv0(ns, seq, done):
+        st["i_cur"] = lift(done)
+        return {}
+    st["layer"] = lambda: st["i_cur"]
+    tmp = ("u", "v", "m", "walk", "edge_multiplicities")
+    loops = {0: dict(inv=inv0, prop=P, keep=tmp), 1: dict(inv=lambda ns, seq, done: {}, prop=P, keep=tmp)}
+    empty = lambda: st["mk_empty"]()
+    return Unit("flowpaths/abstractwalkmodeldigraph.py", "AbstractWalkModelDiGraph._apply_safety_optimizations", h,
+                globs=dict(utils=UtilsStub, safetypathcoverscycles=Dom, Counter=CounterStub, min=min_), loops=loops, props=[P], literals=dict(list=empty),
+                assumptions=["collections.Counter: keys = distinct elements of the list, value = number of occurrences (trusted)",
+                             "A4'' (not proved): a walk that contains a safe list as a subsequence traverses each listed edge at least as often as it is listed, and an edge "
+                             "outside every SCC at most once",
+                             "callee results (safe sequences, walks to fix) are arbitrary lists here; their safety / incompatibility is decided by the bounded oracle"],
+                abstractions=["node names are integers compared by ==", "subset constraints are opaque list elements", "statistics counters are plain integers"])
+
+
 def all_units():
-    return [u_process_edge()]
+    # The DAG twin (AbstractPathModelDAG._apply_safety_optimizations_fix_zero_edges) is NOT registered: on the pinned tree it is unreachable
+    # (`paths_to_fix` is only set by _apply_safety_optimizations, which no DAG model calls; the DAG models fix safe paths inside _encode_paths) and
+    # it calls a reachability API stDAG does not have (nodes_reaching(x) / nodes_reachable(x) are stDiGraph methods; stDAG exposes dict
+    # properties), so it would raise if it were ever reached.  u_fix_zero_edges(..., dag=True) verifies against the same contract should it be revived.
+    # safetypathcovers.get_endpoints_of_longest_safe_path_in is likewise called by nothing and is not under contract.
+    return [u_process_edge(),
+            u_fix_zero_edges("flowpaths/abstractwalkmodeldigraph.py", "AbstractWalkModelDiGraph._apply_safety_optimizations_fix_zero_edges", "walks_to_fix", False),
+            u_apply_safety_walk()]
